@@ -9,10 +9,10 @@ GO_TIMEOUT = {"quick": 600, "thorough": 1500}
 RULE = ("a real IpfsDHT per case (ModeAuto / ModeAutoServer / ModeClient / ModeServer, plus an invalid ModeOpt) on a fake host with the real "
         "event bus inside a synctest bubble; 3-38 driver operations chosen from the observed situation: emit EvtLocalReachabilityChanged "
         "(Public/Private/Unknown/out-of-range), offer an inbound DHT / outbound DHT / other-protocol stream (handler started at once or held), "
-        "start a held handler, write a good (PING) or bad request, EOF, and - with a gate inside moveToClientMode (Network().Conns()) - "
-        "operations inside the demotion window and its release; six scripted histories first (the window witness, the non-vacuity history). "
+        "start a held handler (optionally a stream whose protocol is set only then: it escapes the demotion's reset loop), write a good (PING) or bad request, EOF, and - with a gate inside moveToClientMode (Network().Conns()) - "
+        "operations inside the demotion window and its release; seven scripted histories first (the window witness, the non-vacuity history). "
         "A case is non-trivial when it reaches one of: served / refused / demote / demote-open-streams / promote / window / served-in-window / "
-        "late-start-reset / eof / released; distinct = distinct (mode option, branch set, gated, length class)")
+        "late-start-reset / stopped-by-mode-check / eof / released; distinct = distinct (mode option, branch set, gated, length class)")
 TRUSTED = [
     "go-libp2p event bus delivers events to one subscriber in emission order (modelled as a FIFO queue)",
     "go-libp2p host only dispatches an inbound stream to a protocol that has a registered handler (the fake host does the same from the "
